@@ -25,6 +25,9 @@ type SEp struct {
 	Method string   `json:"method,omitempty"`
 	Path   string   `json:"path,omitempty"`
 	Attrs  []string `json:"attrs,omitempty"`
+	Params string   `json:"params,omitempty"` // "(h <: string [~header, name=\"h\"], b <: Foo [~body])"
+	Query  string   `json:"query,omitempty"`  // "?q=string&r=Foo"
+	NoRet  bool     `json:"noret,omitempty"`
 	Stmts  []SStmt  `json:"stmts,omitempty"`
 }
 type SField struct {
@@ -113,10 +116,21 @@ func (m *SModel) Render() string {
 		// REST endpoints grouped by path
 		for _, e := range a.Eps {
 			if e.Rest {
-				fmt.Fprintf(&b, "    %s:\n        %s%s:\n", e.Path, e.Method, attrStr(e.Attrs))
+				ps := ""
+				if e.Params != "" {
+					ps += " " + e.Params
+				}
+				if e.Query != "" {
+					ps += " " + e.Query
+				}
+				fmt.Fprintf(&b, "    %s:\n        %s%s%s:\n", e.Path, e.Method, ps, attrStr(e.Attrs))
 				renderStmts(&b, "            ", e.Stmts)
 			} else {
-				fmt.Fprintf(&b, "    %s%s:\n", e.Name, attrStr(e.Attrs))
+				ps := ""
+				if e.Params != "" {
+					ps = " " + e.Params
+				}
+				fmt.Fprintf(&b, "    %s%s%s:\n", e.Name, ps, attrStr(e.Attrs))
 				renderStmts(&b, "        ", e.Stmts)
 			}
 		}
@@ -210,6 +224,28 @@ func shapeCorpus() []SModel {
 		Types: []SType{{Name: "R", Kind: "type", Fields: []SField{{Name: "x", Type: "int"}}}}}}, Views: []SView{{Name: "V", Apps: []string{"A"}}}})
 	add(SModel{Shape: "rest-only", Project: "P", Apps: []SApp{{Name: "A", Eps: []SEp{{Name: "GET /a", Rest: true, Method: "GET", Path: "/a", Stmts: []SStmt{ret("ok <: Ghost")}}, {Name: "POST /a", Rest: true, Method: "POST", Path: "/a", Stmts: []SStmt{call("Ghost", "GET /x"), ret("200 <: A.R")}}},
 		Types: []SType{{Name: "R", Kind: "type", Fields: []SField{{Name: "x", Type: "Ghost"}, {Name: "y", Type: "sequence of Ghost"}, {Name: "me", Type: "R"}}}}}}, Views: []SView{{Name: "V", Apps: []string{"A"}}}})
+	// return payload forms (the payload is free text), parameters of reference / collection type in every position
+	add(SModel{Shape: "return-forms", Project: "P", Apps: []SApp{{Name: "A", Eps: []SEp{
+		{Name: "E0", Stmts: []SStmt{ret("ok <: R")}}, {Name: "E1", Stmts: []SStmt{ret("ok <: A.R")}}, {Name: "E2", Stmts: []SStmt{ret("ok <: sequence of R")}},
+		{Name: "E3", Stmts: []SStmt{ret("ok <: Ghost")}}, {Name: "E4", Stmts: []SStmt{ret("ok<:R")}}, {Name: "E5", Stmts: []SStmt{ret("ok <:R")}},
+		{Name: "E6", Stmts: []SStmt{ret("<: R")}}, {Name: "E7", Stmts: []SStmt{ret("200 <: set of Ghost")}}, {Name: "E8", Stmts: []SStmt{ret("error")}},
+		{Name: "GET /r", Rest: true, Method: "GET", Path: "/r", Stmts: []SStmt{ret("ok<:R"), ret("404 <: Nope.Ghost")}}},
+		Types: []SType{{Name: "R", Kind: "type", Fields: []SField{{Name: "x", Type: "int"}}}}}}, Views: []SView{{Name: "V", Apps: []string{"A"}}}})
+	add(SModel{Shape: "rest-ref-params", Project: "P", Apps: []SApp{{Name: "A", Eps: []SEp{
+		{Name: "GET /a/{id}/{ref}/{g}", Rest: true, Method: "GET", Path: "/a/{id <: int}/{ref <: R}/{g <: Ghost}", Query: "?q=string&r=R&s=Ghost&o=int?&x={R}", Stmts: []SStmt{ret("ok <: R")}},
+		{Name: "POST /c", Rest: true, Method: "POST", Path: "/c", Params: "(body <: R [~body], l <: sequence of R [~body])", Stmts: []SStmt{ret("ok <: set of R")}},
+		{Name: "PUT /c", Rest: true, Method: "PUT", Path: "/c", Params: "(h <: string [~header, name=\"h\"], hr <: R [~header, name=\"hr\"], hs <: set of Ghost [~header, name=\"hs\"])", Stmts: []SStmt{ret("ok")}},
+		{Name: "Rpc", Params: "(a <: R, b <: sequence of Ghost, c <: B.Q)", Stmts: []SStmt{call("A", "PUT /c"), ret("ok <: R")}}},
+		Types: []SType{{Name: "R", Kind: "type", Fields: []SField{{Name: "x", Type: "int"}}}}}}, Views: []SView{{Name: "V", Apps: []string{"A"}}}})
+	// sequence-diagram start shapes: the start endpoint's last statement is a block that ends in a call to an endpoint without return payload
+	add(SModel{Shape: "tail-block-call", Project: "P", Apps: []SApp{{Name: "A", Eps: []SEp{
+		{Name: "E0", Stmts: []SStmt{{K: "act", Text: "prepare"}, {K: "if", Text: "c", Body: []SStmt{call("B", "Quiet")}}}},
+		{Name: "E1", Stmts: []SStmt{{K: "for", Text: "x in xs", Body: []SStmt{{K: "act", Text: "work"}, call("B", "Quiet")}}}},
+		{Name: "E2", Stmts: []SStmt{{K: "alt", Text: "v", Body: []SStmt{call("B", "Quiet")}}}},
+		{Name: "E3", Stmts: []SStmt{{K: "until", Text: "done", Body: []SStmt{{K: "loop", Text: "2 times", Body: []SStmt{call("B", "Loud"), call("B", "Quiet")}}}}}},
+		{Name: "E4", Stmts: []SStmt{{K: "if", Text: "c", Body: []SStmt{call("B", "Loud")}}, {K: "else", Body: []SStmt{call("A", "E0")}}}}}},
+		{Name: "B", Eps: []SEp{{Name: "Quiet", Stmts: []SStmt{{K: "act", Text: "log"}}}, {Name: "Loud", Stmts: []SStmt{ret("ok <: string")}}}}},
+		Views: []SView{{Name: "V", Apps: []string{"A", "B"}}}})
 	// type references
 	add(SModel{Shape: "type-self-ref", Apps: []SApp{{Name: "A", Types: []SType{{Name: "R", Kind: "type", Fields: []SField{{Name: "me", Type: "R"}, {Name: "us", Type: "set of R"}, {Name: "q", Type: "A.R"}}}}}}})
 	add(SModel{Shape: "type-cycle", Apps: []SApp{{Name: "A", Types: []SType{{Name: "R", Kind: "type", Fields: []SField{{Name: "s", Type: "S"}}}, {Name: "S", Kind: "type", Fields: []SField{{Name: "r", Type: "R"}, {Name: "o", Type: "B.Q"}}}}}, {Name: "B", Types: []SType{{Name: "Q", Kind: "type", Fields: []SField{{Name: "r", Type: "A.R"}}}}}}})
@@ -258,7 +294,10 @@ func genModel(r *common.Rng, cfg genCfg) SModel {
 		appNames[i] = fmt.Sprintf("App%d", i)
 	}
 	// decide endpoints and types first so that references can be resolved (or not) on purpose
-	type epref struct{ app, ep string }
+	type epref struct {
+		app, ep string
+		noret   bool
+	}
 	var allEps []epref
 	epsOf := map[string][]string{}
 	typesOf := map[string][]string{}
@@ -292,6 +331,64 @@ func genModel(r *common.Rng, cfg genCfg) SModel {
 			if r.Chance(1, 8) {
 				e.Attrs = append(e.Attrs, "~hidden")
 			}
+			e.NoRet = r.Chance(1, 3)
+			ptype := func() string { // parameter types: primitive, own type, other app's type, undefined
+				if cfg.tidy {
+					return pick(r, []string{"int", "string", "bool"})
+				}
+				switch r.Intn(6) {
+				case 0:
+					return "Ty0"
+				case 1:
+					return appNames[r.Intn(na)] + ".Ty0"
+				case 2:
+					if cfg.tidy {
+						return "int"
+					}
+					return "Ghost"
+				default:
+					return pick(r, []string{"int", "string", "bool"})
+				}
+			}
+			coll := func(t string) string {
+				switch r.Intn(4) {
+				case 0:
+					return "sequence of " + t
+				case 1:
+					return "set of " + t
+				}
+				return t
+			}
+			if e.Rest {
+				if r.Chance(1, 3) { // a second, typed path parameter
+					t := ptype()
+					e.Path += "/{p <: " + t + "}"
+					e.Name += "/{p}"
+				}
+				if r.Chance(1, 2) {
+					qt := ptype() // the query grammar takes no dotted names
+					if i := strings.LastIndex(qt, "."); i >= 0 {
+						qt = qt[i+1:]
+					}
+					q := []string{"q=" + qt}
+					if r.Bool() {
+						q = append(q, "o="+pick(r, []string{"int?", "string?", "{Ty0}"}))
+					}
+					e.Query = "?" + strings.Join(q, "&")
+				}
+				if r.Chance(1, 3) {
+					var ps []string
+					if r.Bool() {
+						ps = append(ps, "hdr <: "+coll(ptype())+" [~header, name=\"hdr\"]")
+					}
+					if r.Bool() || len(ps) == 0 {
+						ps = append(ps, "body <: "+coll(ptype())+" [~body]")
+					}
+					e.Params = "(" + strings.Join(ps, ", ") + ")"
+				}
+			} else if r.Chance(1, 4) {
+				e.Params = "(a <: " + coll(ptype()) + ")"
+			}
 			dup := false
 			for _, x := range apps[i].Eps {
 				if x.Name == e.Name || (x.Rest && e.Rest && x.Path == e.Path && x.Method == e.Method) {
@@ -303,7 +400,7 @@ func genModel(r *common.Rng, cfg genCfg) SModel {
 			}
 			apps[i].Eps = append(apps[i].Eps, e)
 			epsOf[an] = append(epsOf[an], e.Name)
-			allEps = append(allEps, epref{an, e.Name})
+			allEps = append(allEps, epref{an, e.Name, e.NoRet})
 		}
 		nt := r.Intn(3)
 		for j := 0; j < nt; j++ {
@@ -319,6 +416,8 @@ func genModel(r *common.Rng, cfg genCfg) SModel {
 	}
 	untidy := func(p, q int) bool { return !cfg.tidy && r.Chance(p, q) }
 	// statements
+	retForms := []string{"ok <: %s", "ok <: %s", "ok<:%s", "ok <:%s", "<: %s", "200 <: %s", "ok <: sequence of %s", "ok <: set of %s"}
+	noRet := false
 	var genStmts func(an string, depth int) []SStmt
 	genStmts = func(an string, depth int) []SStmt {
 		n := r.Intn(4)
@@ -346,11 +445,24 @@ func genModel(r *common.Rng, cfg genCfg) SModel {
 				}
 				ss = append(ss, c)
 			case x == 5:
+				if noRet {
+					continue
+				}
 				t := "ok"
+				form := retForms[0]
+				if !cfg.tidy {
+					form = pick(r, retForms)
+				}
 				if ts := typesOf[an]; len(ts) > 0 && r.Bool() {
-					t = "ok <: " + pick(r, ts)
+					tn := pick(r, ts)
+					if r.Chance(1, 3) {
+						tn = an + "." + tn
+					}
+					t = fmt.Sprintf(form, tn)
 				} else if untidy(1, 3) {
-					t = "ok <: Ghost"
+					t = fmt.Sprintf(form, pick(r, []string{"Ghost", "Nope.Ghost"}))
+				} else if r.Chance(1, 4) {
+					t = "error"
 				}
 				ss = append(ss, ret(t))
 			case x == 6:
@@ -368,9 +480,28 @@ func genModel(r *common.Rng, cfg genCfg) SModel {
 		}
 		return ss
 	}
+	var quiet []epref
+	for _, e := range allEps {
+		if e.noret {
+			quiet = append(quiet, e)
+		}
+	}
 	for i := range apps {
 		for j := range apps[i].Eps {
-			apps[i].Eps[j].Stmts = genStmts(apps[i].Name, 0)
+			noRet = apps[i].Eps[j].NoRet
+			st := genStmts(apps[i].Name, 0)
+			// sequence-diagram start shape: the last statement is a block ending in a call to an endpoint without return payload
+			if len(quiet) > 0 && r.Chance(1, 3) {
+				q := quiet[r.Intn(len(quiet))]
+				k := pick(r, []string{"if", "for", "loop", "until", "alt"})
+				txt := map[string]string{"if": "cond", "for": "x in xs", "loop": "3 times", "until": "done", "alt": "choice1"}[k]
+				body := []SStmt{call(q.app, q.ep)}
+				if r.Bool() {
+					body = append([]SStmt{{K: "act", Text: "work"}}, body...)
+				}
+				st = append(st, SStmt{K: k, Text: txt, Body: body})
+			}
+			apps[i].Eps[j].Stmts = st
 		}
 	}
 	// types and tables
